@@ -33,6 +33,10 @@ def energies(arr, kind):
     q = arr[:, 3:]
     if kind == "smooth":
         return 4.0 * np.sin(0.3 * x + 0.1) + 3.0 * np.cos(0.5 * y + 0.2 * z) + 2.5 * q[:, 0] - 1.5 * q[:, 2] * q[:, 1]
+    if kind == "offset":     # absolute (quantum-chemistry style) energies: small differences on a huge common offset
+        return -400000.0 + 4.0 * np.sin(0.3 * x + 0.1) + 3.0 * np.cos(0.5 * y + 0.2 * z) + 2.5 * q[:, 0]
+    if kind == "offset_pos":
+        return 3700.0 + 2.0 * np.sin(0.3 * x + 0.1) + 1.5 * np.cos(0.5 * y + 0.2 * z)
     E = 0.3 * np.cos(0.4 * x + 0.7 * y) + 0.2 * q[:, 3]
     E = E.copy()
     E[len(E) // 3] -= 40.0
@@ -100,7 +104,7 @@ def run_case(case):
                                    "matrix is not defined", case))
                     continue
                 # spectral decomposition (one temperature)
-                if not case.get("decompose") or n < 15 or T != case["Ts"][0]:
+                if not case.get("decompose") or n < 15 or T != case["Ts"][0] or ek.startswith("offset"):
                     continue
                 dense_ev = np.linalg.eigvals(Qd)
                 if np.abs(dense_ev.imag).max() > 1e-8 * np.abs(dense_ev).max():
@@ -109,12 +113,29 @@ def run_case(case):
                 if dense_sorted[0] - dense_sorted[1] < 1e-8 * np.abs(dense_sorted).max():
                     continue   # zero eigenvalue not simple: grid not connected, outside the statement
                 normQ = np.abs(dense_sorted).max()
-                for which, sigma, tol in SETTINGS:
+                mid = 0.5 * (dense_sorted[2] + dense_sorted[3])     # a negative shift strictly inside the spectrum
+                for which, sigma, tol in SETTINGS + [("LM", "mid34", 1e-10)]:
+                    if sigma == "mid34":
+                        if min(abs(mid - dense_sorted)) < 1e-3 * abs(mid):
+                            continue                                 # too close to an eigenvalue: outside the statement
+                        sigma = float(mid)
+                        near = np.sort(dense_sorted[np.argsort(np.abs(dense_sorted - sigma))])[::-1]
+                    else:
+                        near = None
                     for k in case["ks"]:
                         if n < k + 3:
                             continue
+                        if near is not None:
+                            order_k = np.argsort(np.abs(dense_sorted - sigma), kind="stable")[:k + 1]
+                            dk = np.abs(dense_sorted - sigma)[order_k]
+                            if dk[k] - dk[k - 1] < 1e-6 * normQ or 0 not in order_k[:k]:
+                                continue                             # k-th nearest not unique, or zero not among them
+                            expected_k = np.sort(dense_sorted[order_k[:k]])[::-1]
+                        else:
+                            expected_k = dense_sorted[:k]
                         for seed in case["seeds"]:
-                            dkey = (f"C14|solver|which={which}|sigma={sigma}|tol={tol:g}|k={k}|n={n}|" + pre[4:] + tag +
+                            slabel = "mid34" if near is not None else sigma
+                            dkey = (f"C14|solver|which={which}|sigma={slabel}|tol={tol:g}|k={k}|n={n}|" + pre[4:] + tag +
                                     f"|seed={seed}")
                             etol = max(1e-6, 50 * tol) * normQ
                             v0 = np.random.Generator(np.random.PCG64(1000 + seed)).standard_normal(n)
@@ -144,16 +165,17 @@ def run_case(case):
                             if np.any(np.diff(ev) > 1e-12 * normQ):
                                 vs.append(viol(dkey + "|order", "eigenvalues are not sorted in descending order", case,
                                                observed=ev.tolist()))
-                            if np.abs(ev - dense_sorted[:k]).max() > etol:
-                                if n > k + 1 and np.abs(ev - dense_sorted[1:k + 1]).max() <= etol:
+                            if np.abs(ev - expected_k).max() > etol:
+                                if near is None and n > k + 1 and np.abs(ev - dense_sorted[1:k + 1]).max() <= etol:
                                     zkey = (f"C14|solver|zero_eigenvalue_skipped|which={which}|sigma={sigma}|tol={tol:g}|k={k}|"
                                             f"n={n}|" + pre[4:] + tag + f"|seed={seed}")
                                     vs.append(viol(zkey, "the solver returns eigenvalues 2..k+1: the zero eigenvalue (stationary "
                                                    "state) is skipped", case, expected=dense_sorted[:k].tolist(),
                                                    observed=ev.tolist()))
                                 else:
-                                    vs.append(viol(dkey + "|eigenvalues", "eigenvalues differ from the top-k of a dense solver",
-                                                   case, expected=dense_sorted[:k].tolist(), observed=ev.tolist()))
+                                    vs.append(viol(dkey + "|eigenvalues", "eigenvalues differ from those of a dense solver (the k "
+                                                   "largest, or the k nearest to an interior shift)",
+                                                   case, expected=expected_k.tolist(), observed=ev.tolist()))
                                 continue
                             if abs(ev[0]) > etol:
                                 vs.append(viol(dkey + "|zero", "largest eigenvalue is not zero", case, observed=float(ev[0])))
@@ -189,7 +211,7 @@ def cases(tier):
                         i += 1
                         dec = (tier == "thorough") or (i % 4 == 0)
                         out.append({"b": b, "o": o, "t": t, "cartesian": cart, "f": f,
-                                    "energies": ["smooth", "well"], "Ts": [273.15, 310.0], "decompose": dec,
+                                    "energies": ["smooth", "well", "offset", "offset_pos"], "Ts": [273.15, 310.0], "decompose": dec,
                                     "ks": [6, 12], "seeds": [0, 1, 2]})
     return out
 
